@@ -140,6 +140,14 @@ class MPSBackendImpl:
             else optimat.eye_permutation(self.qubit_count)
         )
 
+        if not torch.equal(
+            self.qubit_permutation, optimat.eye_permutation(self.qubit_count)
+        ):
+            # per-atom drives have to follow the atoms to their new positions
+            self.omega = self.omega[:, self.qubit_permutation]
+            self.delta = self.delta[:, self.qubit_permutation]
+            self.phi = self.phi[:, self.qubit_permutation]
+
         self.hamiltonian_type = pulser_data.hamiltonian_type
         self.time = time.time()
 
@@ -219,7 +227,9 @@ class MPSBackendImpl:
         # has_state_preparation_error
         if self.pulser_data.state_prep_error > 0.0:
             bad_atoms = self.pulser_data.bad_atoms
-            self.well_prepared_qubits_filter = torch.logical_not(torch.tensor(bad_atoms))
+            self.well_prepared_qubits_filter = optimat.permute_tensor(
+                torch.logical_not(torch.tensor(bad_atoms)), self.qubit_permutation
+            )
         else:
             self.well_prepared_qubits_filter = None
         logging.getLogger("emulators").debug(
